@@ -10,6 +10,8 @@ let run_job (job : Sx.t) : string =
   | "scan" -> Jfront.job_scan job
   | "pexpr" -> Jfront.job_pexpr job
   | "pblock" -> Jfront.job_pblock job
+  | "pprog" -> Jfront.job_pprog job
+  | "tcheck" -> Jcheck.job_tcheck job
   | "pretty" -> Jfront.job_pretty job
   | "consts" -> Jconsts.job_consts job
   | "sortnet" -> Jsort.job_sortnet job
